@@ -29,6 +29,9 @@ type Taint struct {
 	// PhiEdge, when set, is asked for every φ edge a tainted value arrives on; false stops the flow
 	// along that edge (the edge is only taken under a condition that makes the value harmless).
 	PhiEdge func(phi *ssa.Phi, edge int, v ssa.Value) bool
+	// StopUse, when set, vetoes the flow from v into this one user (e.g. a projection that leaves the
+	// object of interest).
+	StopUse func(u ssa.Instruction, v ssa.Value) bool
 	Hits    []TaintHit
 	work    []ssa.Value
 	fieldT  map[*types.Var]string
@@ -76,6 +79,9 @@ func (t *Taint) Run() {
 		}
 		for _, u := range *refs {
 			t.Steps++
+			if t.StopUse != nil && t.StopUse(u, v) {
+				continue
+			}
 			if t.Sink != nil {
 				if what := t.Sink(u, v); what != "" {
 					t.hit(u, what, v)
